@@ -218,9 +218,10 @@ def run_C13(ctx, R):
         ser.rule_ser(ctx, R)
     acc.rule_kind_pred(ctx, R)
     acc.rule_accessors(ctx, R)
-    nfa.rule_outputs_pass(ctx, R, E.NR)
-    nfa.rule_fail_passes(ctx, R, E.NR)
     search.rule_trans(ctx, R)
+    # phantom transitions (shared bases, stale CHECKs) are what makes a scan super-linear or sends it into DEAD links:
+    # the bound rests on the same construction clauses as C01-C05
+    construction_rules(ctx, R, E)
 
 
 def run_C14(ctx, R):
